@@ -46,6 +46,9 @@ type Script struct {
 	// IgnoreCancel: a successful dial completes after Delay even if its context was cancelled
 	// meanwhile (the handshake finished at or just after the cancel, as a real transport may)
 	IgnoreCancel bool
+	// CloseErr: what the produced connection's Close / CloseWithError return (the connection is
+	// shut down all the same, as with a real transport whose close reports an error)
+	CloseErr error
 }
 
 var ErrScriptedFailure = errors.New("scripted: dial failed")
@@ -246,6 +249,7 @@ func (t *Transport) dial(ctx context.Context, raddr ma.Multiaddr, p peer.ID, ch 
 			limited = *sc.Limited
 		}
 		c := t.NewConn(rp, raddr, limited)
+		c.CloseErr = sc.CloseErr
 		return finish(c, nil, ctx.Err() != nil) // CtxDone on a success: completed although cancelled meanwhile
 	}
 }
@@ -364,6 +368,8 @@ type Conn struct {
 	closedCh  chan struct{}
 	closeOnce sync.Once
 	CloseCode atomic.Int64 // last error code given to CloseWithError (-1: plain Close)
+	// CloseErr is returned by Close and CloseWithError (set before the connection is handed out)
+	CloseErr error
 	Closes    atomic.Int32
 
 	mu      sync.Mutex
@@ -377,13 +383,13 @@ type Conn struct {
 func (c *Conn) Close() error {
 	c.Closes.Add(1)
 	c.closeOnce.Do(func() { c.CloseCode.Store(-1); close(c.closedCh); c.resetStreams() })
-	return nil
+	return c.CloseErr
 }
 
 func (c *Conn) CloseWithError(code network.ConnErrorCode) error {
 	c.Closes.Add(1)
 	c.closeOnce.Do(func() { c.CloseCode.Store(int64(code)); close(c.closedCh); c.resetStreams() })
-	return nil
+	return c.CloseErr
 }
 
 // RemoteClose simulates the remote side (or the network) killing the connection.
